@@ -151,7 +151,7 @@ Lemma add_reqs_sound S p : forall qs m m',
 Proof.
   induction qs as [|q t IH]; intros m m' H Hin Hs; simpl in H.
   - now injection H as <-.
-  - destruct (tstatus_ok (q_tstatus q)); [|discriminate].
+  - destruct (tstatus_ok (q_tstatus q) && formatter_known (q_formatter q)); [|discriminate].
     destruct (add_req m p q) as [m1|] eqn:A; [|discriminate].
     apply IH with (m := m1); auto.
     + intros q' Hq'. apply Hin. now right.
@@ -163,7 +163,7 @@ Lemma add_reqs_complete p : forall qs S m m',
 Proof.
   induction qs as [|q t IH]; intros S m m' H Hc; simpl in H.
   - injection H as <-. simpl. now rewrite app_nil_r.
-  - destruct (tstatus_ok (q_tstatus q)); [|discriminate].
+  - destruct (tstatus_ok (q_tstatus q) && formatter_known (q_formatter q)); [|discriminate].
     destruct (add_req m p q) as [m1|] eqn:A; [|discriminate].
     simpl. replace (S ++ (p, q) :: map (pair p) t) with ((S ++ [(p, q)]) ++ map (pair p) t)
       by (now rewrite <- app_assoc).
@@ -171,12 +171,13 @@ Proof.
 Qed.
 
 Lemma add_reqs_tstatus p : forall qs m m',
-  add_reqs m p qs = Some m' -> forall q, In q qs -> tstatus_ok (q_tstatus q) = true.
+  add_reqs m p qs = Some m' -> forall q, In q qs ->
+  tstatus_ok (q_tstatus q) = true /\ formatter_known (q_formatter q) = true.
 Proof.
   induction qs as [|q t IH]; intros m m' H q0 Hq; simpl in H; [destruct Hq|].
-  destruct (tstatus_ok (q_tstatus q)) eqn:T; [|discriminate].
+  destruct (tstatus_ok (q_tstatus q) && formatter_known (q_formatter q)) eqn:T; [|discriminate].
   destruct (add_req m p q) as [m1|] eqn:A; [|discriminate].
-  destruct Hq as [<-|Hq]; [exact T | eapply IH; eauto].
+  destruct Hq as [<-|Hq]; [now apply andb_true_iff in T | eapply IH; eauto].
 Qed.
 
 Lemma collect_sound S : forall ds m m',
@@ -216,7 +217,8 @@ Proof.
 Qed.
 
 Lemma collect_tstatus : forall ds m m',
-  collect m ds = Some m' -> forall p q, In (p, q) (sel ds) -> tstatus_ok (q_tstatus q) = true.
+  collect m ds = Some m' -> forall p q, In (p, q) (sel ds) ->
+  tstatus_ok (q_tstatus q) = true /\ formatter_known (q_formatter q) = true.
 Proof.
   induction ds as [|[p d] t IH]; intros m m' H p0 q0 Hin; simpl in H; [destruct Hin|].
   unfold sel in Hin; simpl in Hin. fold (sel t) in Hin. unfold sel_of in Hin; simpl in Hin.
@@ -233,7 +235,8 @@ Record grouped (w : world) (m : list coll) : Prop := {
   g_sound : Sound (selected_reqs w) m;
   g_complete : Complete (selected_reqs w) m;
   g_decided : forall p d, In (p, d) (all_decls (w_pkgs w)) -> should_generate p (d_name d) <> None;
-  g_tstatus : forall p q, In (p, q) (selected_reqs w) -> tstatus_ok (q_tstatus q) = true;
+  g_tstatus : forall p q, In (p, q) (selected_reqs w) ->
+              tstatus_ok (q_tstatus q) = true /\ formatter_known (q_formatter q) = true;
   g_noerr : forall p, In p (w_pkgs w) -> has_errors p = true -> has_files p = false /\ has_sub (w_pkgs w) p = true
 }.
 
@@ -630,10 +633,8 @@ Proof.
   - (* MissingRemoteTemplate *) destruct HC as (p & q & Hin & _ & F).
     destruct (Vis eq_refl _ _ Hin) as (k & Hq & _ & _ & Et & [PF _]).
     unfold pure_failure in PF. rewrite Et, F in PF. destruct (forallb q_prep_ok (k_reqs k)); discriminate.
-  - (* UnknownFormatter *) destruct HC as (x & g & Hg & F).
-    destruct (VisG eq_refl _ _ Hg) as (k & _ & <- & [PF _]).
-    unfold pure_failure in PF. rewrite F in PF. simpl in PF.
-    repeat match type of PF with (if ?b then _ else _) = None => destruct b; try discriminate end.
+  - (* UnknownFormatter *) destruct HC as (p & q & Hin & F).
+    destruct (g_tstatus _ _ G _ _ Hin) as [_ X]. now rewrite F in X.
   - (* ConfigUnreadable *) destruct HC as [H|[H|H]]; congruence.
   - (* UnknownKey *) congruence.
   - (* BadRegexSubpkg *) destruct HC as (r & s & Hr & Hs & X).
@@ -643,10 +644,10 @@ Proof.
   - (* BadRegexInterface *) destruct HC as (p & d & Hd & B).
     apply (g_decided _ _ G _ _ Hd). now apply bad_regex_none.
   - (* CyclicTemplate *) destruct HC as (p & q & Hin & [T|T]).
-    + pose proof (g_tstatus _ _ G _ _ Hin) as X. now rewrite T in X.
+    + destruct (g_tstatus _ _ G _ _ Hin) as [X _]. now rewrite T in X.
     + destruct (Vis eq_refl _ _ Hin) as (k & Hq & <- & _ & _ & [_ X]). now rewrite T in X.
   - (* BadTemplatedValue *) destruct HC as (p & q & Hin & [T|T]).
-    + pose proof (g_tstatus _ _ G _ _ Hin) as X. now rewrite T in X.
+    + destruct (g_tstatus _ _ G _ _ Hin) as [X _]. now rewrite T in X.
     + destruct (Vis eq_refl _ _ Hin) as (k & Hq & <- & _ & _ & [_ X]). now rewrite T in X.
   - (* SchemaMissing *) destruct HC as (x & g & Hg & K & Rq & S).
     destruct (VisG eq_refl _ _ Hg) as (k & Hk & Eg & [PF _]).
@@ -852,7 +853,7 @@ Lemma file_pkg_sound w x p :
 Proof.
   unfold file_pkg. destruct (collections w) as [m|] eqn:Co; [|discriminate].
   destruct (find_coll m x) as [k|] eqn:Hk; [|discriminate]. simpl. intros E. injection E as <-.
-  destruct (g_sound _ _ (collections_grouped _ _ Co) _ _ Hk) as (q & Hq & Kq & _). eauto.
+  destruct (g_sound _ _ (collections_grouped _ _ Co) _ _ Hk) as (Hq & Kq & _). eauto.
 Qed.
 
 Lemma file_pkg_complete w m p q :
@@ -860,4 +861,12 @@ Lemma file_pkg_complete w m p q :
 Proof.
   intros W Co Hin. destruct (group_of _ _ _ _ W (collections_grouped _ _ Co) Hin) as (k & Hk & _ & <- & _).
   unfold file_pkg. now rewrite Co, Hk.
+Qed.
+
+Lemma file_gov_sound w x g :
+  file_gov w x = Some g -> exists p, In (p, g) (selected_reqs w) /\ q_key g = x.
+Proof.
+  unfold file_gov. destruct (collections w) as [m|] eqn:Co; [|discriminate].
+  destruct (find_coll m x) as [k|] eqn:Hk; [|discriminate]. simpl. intros E. injection E as <-.
+  destruct (g_sound _ _ (collections_grouped _ _ Co) _ _ Hk) as (Hq & Kq & _). eauto.
 Qed.
